@@ -146,6 +146,17 @@ pub enum Motif {
         /// 2 one cage pawn missing (flight square); 3 a blocker on the file (no check at all)
         variant: u8,
     },
+    /// Many of our rooks/queens/bishops stacked on the three lines of a cornered enemy king,
+    /// each line closed by one of our knights next to the king: moving a knight discovers a
+    /// check from a slider that is the ninth, tenth, ... aligned slider in square order.
+    SliderSwarm {
+        black: bool,
+        corner: u8,
+        file_n: u8,
+        rank_n: u8,
+        diag_n: u8,
+        diag_queen_far: bool,
+    },
     /// King near an edge with a few enemy pieces close by: mates and stalemates.
     Net {
         black: bool,
@@ -721,6 +732,32 @@ fn apply_motif(b: &mut Builder, m: &Motif, h: &mut Hints) {
                 b.put(file, far + 3 * down, Kind::N, them);
             }
         }
+        Motif::SliderSwarm { black, corner, file_n, rank_n, diag_n, diag_queen_far } => {
+            let us = side_of(*black);
+            let them = us.other();
+            h.stm = Some(us);
+            let (cf, cr) = [(0, 0), (7, 0), (0, 7), (7, 7)][*corner as usize % 4];
+            let (df, dr) = (if cf == 0 { 1 } else { -1 }, if cr == 0 { 1 } else { -1 });
+            b.put(cf, cr, Kind::K, them);
+            // knights closing the three lines
+            b.put(cf, cr + dr, Kind::N, us);
+            b.put(cf + df, cr, Kind::N, us);
+            b.put(cf + df, cr + dr, Kind::N, us);
+            // sliders behind them (at most twelve in all, so that the side keeps to 16 men)
+            let (fnn, rnn, dnn) = (1 + *file_n as i32 % 5, 1 + *rank_n as i32 % 5, 1 + *diag_n as i32 % 3);
+            for i in 0..fnn {
+                b.put(cf, cr + dr * (2 + i), Kind::R, us);
+            }
+            for i in 0..rnn {
+                b.put(cf + df * (2 + i), cr, Kind::R, us);
+            }
+            for i in 0..dnn {
+                let d = if *diag_queen_far && i == dnn - 1 { 7 } else { 2 + i };
+                b.put(cf + df * d, cr + dr * d, if i % 2 == 0 { Kind::Q } else { Kind::B }, us);
+            }
+            // our king somewhere harmless
+            b.put(cf + df * 5, cr + dr * 3, Kind::K, us);
+        }
         Motif::Net { black, ksq, pieces, enemy_k } => {
             let us = side_of(*black);
             let them = us.other();
@@ -874,6 +911,8 @@ fn arb_motif() -> impl Strategy<Value = Motif> {
             .prop_map(|(black, long, cover_queen, cover_dist, drop)| Motif::CastleOnly { black, long, cover_queen, cover_dist, drop }),
         1 => (any::<bool>(), any::<bool>(), prop_oneof![2 => Just(0u8), 1 => 1u8..4])
             .prop_map(|(black, long, variant)| Motif::CastleMate { black, long, variant }),
+        1 => (any::<bool>(), 0u8..4, 0u8..5, 0u8..5, 0u8..3, any::<bool>())
+            .prop_map(|(black, corner, file_n, rank_n, diag_n, diag_queen_far)| Motif::SliderSwarm { black, corner, file_n, rank_n, diag_n, diag_queen_far }),
         1 => (any::<bool>(), any::<bool>(), 0u8..5, 0u8..2, any::<bool>(), 0u8..4)
             .prop_map(|(black, right_corner, d, kf, p3_right, blocker_kind)| Motif::BatteryStalemate { black, right_corner, d, kf, p3_right, blocker_kind }),
         1 => (any::<bool>(), 0u8..6, any::<[u8; 8]>(), vec((any::<u8>(), 0u8..32), 5), 0u8..8)
